@@ -30,7 +30,10 @@ CHECKS['C20'] = {
           'line is a complete record, seq +1 across files and restarts, one line per reported event (C20_audit_guarded); the full '
           'statement is refuted by kernel-checked witnesses for a crash that cuts a line (known finding C20-torn-tail). Model tied '
           'to default_handler.py by correspondence on a real temporary directory: all 9 callbacks, restart after every event, every '
-          'octet offset of a write.',
+          'octet offset of a write. Record sizes: start-up reads the last line whatever its length (octet-level model, '
+          'C20_recovery_reads_last_line, C20_recovery_octets_refine) and sizes/thresholds never influence numbering '
+          '(C20_recovery_independent_of_sizes); the check writes records of 46 to 70001 octets (thorough 2^20+1) through the real '
+          'callbacks: restart right after them, thresholds below/at/above them, torn at every block boundary.',
   'note': 'abstract file system (append/truncate/getsize; fsync-per-write assumption checked at run time); complete JSON <=> parseable '
           '(validated at every swept offset); file names sort in creation order (driven clock); simplejson stub',
   'technique': 'Coq proof (induction over histories) + refutation witnesses + model/implementation correspondence with crash injection at every byte offset',
@@ -67,7 +70,9 @@ CHECKS['C18'] = {
 }
 CHECKS['C19'] = {
   'text': 'Coq theorems (unbounded update lists, duplicates allowed): model/YRib.v refines the finite-map spec for Adj-RIB-In/Out, tables empty after a drop, '
-          'every version counter moves by exactly the number of table changes per family and direction. Model tied to protocol.py by whole-state per-event '
+          'every version counter moves by exactly the number of table changes per family and direction; the connection record has the disconnected flag and the tables are empty '
+          'after a remote drop and after every locally initiated close + connectionLost (C19_empty_after_any_drop); attribute 15 is applied whatever else the UPDATE '
+          'carries (C19_unreach_applied_*). Model tied to protocol.py by whole-state per-event '
           'correspondence on exhaustive short and random traces through dataReceived, the protocol calls and the REST view, plus an independent dictionary oracle.',
   'note': 'model is of the code with fix af203e7; received VPNv4 withdrawals are known finding C19-vpnv4-withdraw-label (refuted theorem + theorem for identity '
           'incl. label); Update codecs, value interning and key-string injectivity trusted',
